@@ -96,6 +96,10 @@ pub trait Scenario: Sync {
     fn exhaustive(&self, _thorough: bool) -> bool {
         false
     }
+    /// address-space limit for worker processes (0 = none)
+    fn memory_limit(&self) -> u64 {
+        0
+    }
     fn real_vs_stub(&self) -> Value {
         json!({
             "real": ["amiquip (all of src/ except TLS stream and URL/TCP open)", "amq-protocol", "cookie-factory", "input_buffer",
